@@ -453,6 +453,8 @@ func run(c *vh.Ctx) error {
 			}
 		}
 	}
+	// ---- large aborted cycles: > 4096 body tasks still queued at Reset (block boundaries of common/prque's stack) ----
+	runLargeResets(c, drv)
 	// ---- end-to-end tier: the real fetch loop with scripted peers ---------------------------------------
 	runLoopTier(c)
 	res.Extra["ops_compared"] = totalOps
@@ -508,4 +510,69 @@ func replay(c *vh.Ctx, body, comments []string) (bool, string) {
 		}
 	}
 	return replayWith(drv, body, comments)
+}
+
+// runLargeResets: a first cycle schedules `queued` (+ a few served) headers and is abandoned with `queued` body tasks
+// still in the task queue; Reset; a second cycle on an unrelated chain from another origin is scheduled and drained by
+// one honest peer. The model's task queue is a sorted list; the real one is common/prque (a heap over a blocked stack of
+// 4096-item blocks) — these runs are what ties the abstraction to prque across Reset, at and around the block boundaries.
+func runLargeResets(c *vh.Ctx, drv *vh.Driver) {
+	res := c.Res
+	sizes := []int{4097, 8193}
+	if c.Thorough() {
+		sizes = []int{4095, 4096, 4097, 4098, 5000, 8191, 8192, 8193, 9000, 12289}
+	}
+	for ci, queued := range sizes {
+		served := 0
+		if ci%2 == 1 {
+			served = 6 // some results complete and cached, not pulled, at the abort
+		}
+		p := params{seed: c.Seed*977 + uint64(queued), n: queued + served, origin: uint64(1000 + 7*ci), cacheLen: 8192, cacheMem: 64 * 1024 * 1024,
+			maxProc: 2048, mode: 1, emptyPct: 97, disciplined: true}
+		if ci%3 == 2 {
+			p.mode = 2
+		}
+		var ops []string
+		if served > 0 { // serve the first few blocks before the rest of the headers arrive
+			ops = append(ops, "S * "+strings.Join(strs(seq(0, served)), " "), fmt.Sprintf("RB 1 %d", served), "HB 1")
+			if p.mode == 2 {
+				ops = append(ops, fmt.Sprintf("RR 1 %d", served), "HR 1")
+			}
+		}
+		for at := served; at < p.n; at += 2048 { // processHeaders schedules chunks of at most 2048
+			end := at + 2048
+			if end > p.n {
+				end = p.n
+			}
+			ops = append(ops, "S * "+strings.Join(strs(seq(at, end)), " "))
+		}
+		n2 := 150 + 31*ci
+		ops = append(ops, fmt.Sprintf("Z %d %d %d %d 50", p.seed+1, n2, int(p.origin)+3-2*(ci%3), 1+ci%2))
+		ops = append(ops, "S * "+strings.Join(strs(seq(0, n2)), " "), "RB 2 9", "HB 2", "X")
+		fl, e := runOps(p, ops, drv, true)
+		res.Dist("large-reset-cases")
+		res.Count(p.line()+fmt.Sprintf(" large-reset queued=%d", queued), true)
+		if e != nil {
+			res.TracesVsImpl += e.nOps
+			if fl == nil && len(e.returned) != n2 {
+				fl = &failure{"oracle", fmt.Sprintf("second cycle after an abort with %d queued body tasks: %d of %d blocks reached the importer", queued, len(e.returned), n2), e.nOps}
+			}
+		}
+		if fl != nil {
+			if fl.at+1 < len(ops) {
+				ops = ops[:fl.at+1]
+			}
+			rp := vh.WriteReplay(c.ReplayDir, "C18", fmt.Sprintf("large-reset-%s-s%d-%d", fl.kind, c.Seed, queued), c.Seed,
+				append([]string{fl.kind + fmt.Sprintf(" (cycle abandoned with %d body tasks queued, then Reset): ", queued) + strings.Split(fl.what, "\n")[0]}, strings.Split(fl.what, "\n")[1:]...), append([]string{p.line()}, ops...))
+			res.Fail(fl.kind, "", fmt.Sprintf("large reset (%d tasks queued at abort): %s", queued, fl.what), rp)
+		}
+	}
+}
+
+func seq(a, b int) []int {
+	out := make([]int, 0, b-a)
+	for i := a; i < b; i++ {
+		out = append(out, i)
+	}
+	return out
 }
